@@ -115,6 +115,44 @@ func wDecodedIdentity(c *Ctx, fns [][3]string, floor int) {
 		}
 		all := []*ssa.Function{fn}
 		all = append(all, fn.AnonFuncs...)
+		// in-module helpers the decoder reads the wire through (an extracted "read
+		// the fixed part" step), other decoders of the table excluded: they are
+		// listed themselves
+		listed := map[*ssa.Function]bool{}
+		for _, o := range fns {
+			if of := p.Func(o[0], o[1], o[2]); of != nil {
+				listed[of] = true
+			}
+		}
+		seenFn := map[*ssa.Function]bool{fn: true}
+		for i, depth := 0, 0; i < len(all) && depth < 64; i, depth = i+1, depth+1 {
+			for _, b := range all[i].Blocks {
+				for _, in := range b.Instrs {
+					call, ok := in.(ssa.CallInstruction)
+					if !ok {
+						continue
+					}
+					callee := call.Common().StaticCallee()
+					if callee == nil || callee.Blocks == nil || seenFn[callee] || listed[callee] || wUnits[callee] || !p.InModule(callee) {
+						continue
+					}
+					takesBytes := false
+					for _, q := range callee.Params {
+						if sl, ok := q.Type().Underlying().(*types.Slice); ok {
+							if bt, ok := sl.Elem().Underlying().(*types.Basic); ok && bt.Kind() == types.Uint8 {
+								takesBytes = true
+							}
+						}
+					}
+					if !takesBytes {
+						continue
+					}
+					seenFn[callee] = true
+					all = append(all, callee)
+					all = append(all, callee.AnonFuncs...)
+				}
+			}
+		}
 		type slot struct {
 			owner string
 			field string
